@@ -186,7 +186,8 @@ def run(ctx):
             ctx.ok("R2", f"{attr}['{key}'] <-> `{rlab}` on both sides", f"{rf.module.relpath}:{rnode.lineno}")
         else:
             ctx.violate("R2", f"{attr}['{key}'] is read from `{rlab}` but written as `{wl}`", wp[2], wp[1], construct=f"{attr}[{key!r}]: reader {rlab!r} writer {wl!r}")
-    ctx.floor("R2", npair, 6, "attribute-key/label pairs present on both sides")
+    # no floor on the literal pairs: which attribute goes to which label and back is decided by evaluation (R29), so a
+    # writer that routes through a table instead of literal `if "key" in ...` statements is not an anchor loss
 
     # labels the reader needs unconditionally must not depend, on the writer side, on an attribute the writer declares
     # optional: otherwise a successfully written file cannot be read back
@@ -518,6 +519,8 @@ def run(ctx):
     check_cube_header_pair(ctx, "R25")
     ctx.rule("R26", "POSCAR: the cell and the fractional coordinates written give the same Cartesian positions when read (writer and header reader evaluated; atoms grouped by element)", "fractional coordinates computed with the transposed inverse cell: atoms of a non-orthogonal cell come back displaced")
     check_poscar_pair(ctx, "R26")
+    ctx.rule("R29", "FCHK field routing: what dump_one hands to each labelled field comes back from load_one under the same attribute (both interpreted with the field I/O helpers stubbed)", "two charge schemes swapped between their labels, masses written without the amu factor, the core charges read from the atomic-number field, a density matrix filed under another key")
+    check_fchk_field_routing(ctx, "R29")
     ctx.rule("R14", "formats read by splitting at white space are written with a literal separator between neighbouring fields", "for a large system a counter fills its field and touches its neighbour: the written line has fewer tokens and cannot be read back")
     with open(os.path.join(VERIF_DIR, "spec", "layouts.json")) as fh:
         column_formats = set(json.load(fh)) - {"_comment"}
@@ -1019,3 +1022,112 @@ def check_poscar_pair(ctx, rid):
         ctx.violate(rid, f"POSCAR, non-orthogonal cell: the atom written at {want[k].tolist()} comes back at {c2[k].round(6).tolist() if c2.shape == (3, 3) else c2.shape}: the fractional coordinates written do not reproduce the Cartesian position with the cell written next to them", do, do.node, construct="poscar pair: positions")
         return
     ctx.ok(rid, "poscar: cell, element groups (heaviest first, original order within a group) and Cartesian positions of a non-orthogonal model cell come back from the VASP header reader", f"{do.module.relpath}:{do.lineno}")
+
+
+def check_fchk_field_routing(ctx, rid):
+    """The routing part of the FCHK writer and reader as a whole: `dump_one` is interpreted on a model object (two
+    atoms, two s shells, restricted orbitals, every optional attribute set to values that all differ) with the four
+    field writers replaced by a recorder; `load_one` is interpreted with the low-level field reader replaced by that
+    record (header fields as the writer prints them).  No text is produced or parsed here -- the formatting of fields
+    is the business of C02-R14 / R16 / R21 -- what is decided is which attribute goes to which label and back, with
+    which factor, permutation and packing."""
+    from ..accessors import AccessorEval, Raised, Rec, TextSink
+    from ..consteval import ConstEval, NotConstant
+    from ..symarr import NotSymbolic
+
+    prog = ctx.prog
+    do = prog.format_op("fchk", "dump_one")
+    lo = prog.format_op("fchk", "load_one")
+    low = prog.funcs.get("iodata.formats.fchk._load_fchk_low")
+    if low is None:
+        raise AnalysisError("fchk._load_fchk_low not found")
+    iocls = prog.cls("iodata.iodata.IOData")
+    shcls = prog.cls("iodata.basis.Shell")
+    bcls = prog.cls("iodata.basis.MolecularBasis")
+    mocls = prog.cls("iodata.orbitals.MolecularOrbitals")
+    try:
+        conv = ConstEval(prog).global_value(do.module, "CONVENTIONS")
+    except NotConstant as exc:
+        raise AnalysisError(f"fchk.CONVENTIONS is not a constant: {exc}") from exc
+    AMU = 1000.0
+    H = np.array([[float(10 * (max(i, j) + 1) + min(i, j) + 1) for j in range(6)] for i in range(6)])  # symmetric, all different
+    sh = lambda ic, ex, co: Rec(shcls, icenter=ic, angmoms=np.array([0]), kinds=["c"], exponents=np.array(ex), coeffs=np.array(co))
+    charges = {k: np.array([i + 0.25, -(i + 0.25)]) for i, k in enumerate(["mulliken", "esp", "npa", "mbs", "hirshfeld", "cm5"])}
+    f0 = {n: None for n in iocls.fields}
+    for n in ("atffparams", "two_rdms", "one_ints", "two_ints"):
+        if n in f0:
+            f0[n] = {}
+    want = dict(
+        title="model", lot="hf", obasis_name="sto-3g", atnums=np.array([8, 1]), atcoords=np.array([[0.125, 0.25, 0.375], [1.125, 1.25, 1.375]]),
+        atmasses=np.array([29164.0, 1837.0]), energy=-75.5, atcharges=charges,
+        atgradient=np.array([[0.01, 0.02, 0.03], [0.04, 0.05, 0.06]]), athessian=H,
+        moments={(1, "c"): np.array([0.5, 0.6, 0.7]), (2, "c"): np.array([1.0, 2.0, 3.0, 4.0, 5.0, 6.0])},
+        extra={"polarizability_tensor": np.array([[1.0, 2.0, 4.0], [2.0, 3.0, 5.0], [4.0, 5.0, 6.0]])},
+        one_rdms={"scf": np.array([[1.5, 0.25], [0.25, 0.5]]), "scf_spin": np.array([[0.125, -0.75], [-0.75, 0.0625]])},
+    )
+    f0.update(want)
+    f0.update(run_type="freq", _atcorenums=np.array([6.0, 1.0]))
+    f0["obasis"] = Rec(bcls, shells=[sh(0, [5.0, 1.0], [[0.4], [0.6]]), sh(1, [0.7], [[1.0]])], conventions=conv, primitive_normalization="L2")
+    f0["mo"] = Rec(mocls, kind="restricted", norba=2, norbb=2, occs=np.array([2.0, 0.0]), coeffs=np.array([[0.6, 0.8], [0.7, -0.5]]), energies=np.array([-1.5, 0.25]), irreps=None, occs_aminusb=None)
+    got = {}
+
+    def cap(args, kw):
+        if args[0] in got:
+            got["<twice>"] = args[0]
+        got[args[0]] = args[1]
+
+    try:
+        ev = AccessorEval(prog, iocls, limit=80000)
+        ev.module = do.module
+        ev._globals = {("iodata.utils", "amu"): AMU}
+        ev.stubs = {f"iodata.formats.fchk.{nm}": cap for nm in ("_dump_integer_scalars", "_dump_integer_arrays", "_dump_real_arrays", "_dump_real_scalars")}
+        ev.run_free(do, [TextSink(), Rec(iocls, **f0)], {})
+        if "<twice>" in got:
+            ctx.violate(rid, f"fchk.dump_one writes the field '{got['<twice>']}' twice for one object: the reader keeps one of them", do, do.node, construct=f"fchk routing: {got['<twice>']} twice")
+            return
+        fields = {k: (np.asarray(v) if isinstance(v, (list, tuple, np.ndarray)) else v) for k, v in got.items()}
+        fields.update(title="model", command="FREQ", lot="HF", obasis_name="STO-3G")
+        ev = AccessorEval(prog, iocls, limit=80000)
+        ev.module = lo.module
+        ev._globals = {("iodata.utils", "amu"): AMU}
+        ev.stubs = {low.qualname: lambda a, k: fields}
+        res = ev.run_free(lo, [None], {})
+    except Raised as exc:
+        ctx.violate(rid, f"FCHK field routing: the fields dump_one writes for a model object make load_one raise {exc.args[0]}", lo, lo.node, construct="fchk routing: raises")
+        return
+    except NotSymbolic as exc:
+        raise AnalysisError(f"fchk.dump_one / load_one are outside the evaluation whitelist: {exc}") from exc
+    if not isinstance(res, dict):
+        raise AnalysisError("fchk.load_one did not return a dictionary")
+
+    def same_value(a, b):
+        if isinstance(b, dict):
+            return isinstance(a, dict) and set(a) == set(b) and all(same_value(a[k], b[k]) for k in b)
+        if isinstance(b, np.ndarray):
+            a_ = np.asarray(a, dtype=float) if a is not None else None
+            return a_ is not None and a_.shape == b.shape and np.abs(a_ - b).max() < 1e-9
+        if isinstance(b, float):
+            return a is not None and not isinstance(a, (str, dict)) and abs(float(a) - b) < 1e-12
+        return a == b
+
+    expect = dict(want)
+    expect["atcorenums"] = np.array([6.0, 1.0])
+    for key, w in expect.items():
+        g = res.get(key)
+        if key == "extra":
+            g = {k: v for k, v in (g or {}).items() if k in w}
+        if not same_value(g, w):
+            show = lambda v: {str(k): np.asarray(x).round(6).tolist() for k, x in v.items()} if isinstance(v, dict) else (np.asarray(v).round(6).tolist() if isinstance(v, np.ndarray) else v)
+            ctx.violate(rid, f"FCHK field routing: `{key}` is written as {str(show(w))[:160]} and read back as {str(show(g))[:160]} (amu standing for {AMU:g})", do, do.node, construct=f"fchk routing: {key}")
+            return
+    mo = res.get("mo")
+    ob = res.get("obasis")
+    bad = None
+    if not isinstance(mo, Rec) or mo.fields.get("kind") != "restricted" or not same_value(mo.fields.get("energies"), f0["mo"].fields["energies"]) or not same_value(mo.fields.get("coeffs"), f0["mo"].fields["coeffs"]) or not same_value(mo.fields.get("occs"), f0["mo"].fields["occs"]):
+        bad = "the orbitals (kind, energies, coefficients, occupations from the electron counts)"
+    elif not isinstance(ob, Rec) or len(ob.fields.get("shells", [])) != 2 or any(int(a.fields["icenter"]) != int(b.fields["icenter"]) or not same_value(a.fields["exponents"], b.fields["exponents"]) or not same_value(a.fields["coeffs"], b.fields["coeffs"]) for a, b in zip(ob.fields["shells"], f0["obasis"].fields["shells"])):
+        bad = "the basis set"
+    if bad:
+        ctx.violate(rid, f"FCHK field routing: {bad} of the model object do(es) not come back as written", do, do.node, construct=f"fchk routing: {bad}")
+        return
+    ctx.ok(rid, f"fchk: {len(got)} labelled fields written for a model object come back under their own attributes ({', '.join(sorted(expect))}, mo, obasis)", f"{do.module.relpath}:{do.lineno}")
